@@ -84,6 +84,17 @@ pub fn rseq_cached(
 /// A dirty pre-state for one generated path. None = absent.
 pub fn dirty_bytes(rng: &mut Rng, fresh: Option<&[u8]>, allow_invalid: bool) -> Option<Vec<u8>> {
     let token = format!("STALE-{:08x}", rng.next() as u32);
+    // the right bytes with one byte changed somewhere (same length; far from the start in big files)
+    if rng.chance(1, 8) {
+        if let Some(f) = fresh {
+            if !f.is_empty() {
+                let mut v = f.to_vec();
+                let at = rng.below(v.len());
+                v[at] = if v[at] == b'x' { b'y' } else { b'x' };
+                return Some(v);
+            }
+        }
+    }
     let cls = rng.below(if allow_invalid { 7 } else { 5 });
     let mut v = match cls {
         0 => return None,
